@@ -87,6 +87,7 @@ def strconfig_part(ctx):
         maximal = [w for w in short if w not in sp] + random.Random(ctx.seed + 121).sample(long4, min(3000, len(long4)))
     res = gwrun.run_chanlife([[list(o) for o in w] for w in maximal], module="sim.strconfig")
     gwrun.close_pool()
+    res = [x for x in res if "harness_hang" not in x]
     for x in res:
         if "harness_error" in x or x.get("error") or len(x.get("obs", [])) != len(x["ops"]):
             ctx.machinery(f"StrConfig replay failed on {x['ops']}: {x.get('harness_error') or x.get('error') or x.get('outcome')}")
